@@ -348,6 +348,29 @@ func (g *gen) stepRandom() {
 	if len(g.queues(sn)) == 0 && g.r.Chance(4, 5) {
 		k = 0 // nothing to work with yet: declare a queue
 	}
+	if len(g.queues(sn)) > 0 && g.r.Chance(1, 22) { // a pipelined burst on one channel
+		var subs []string
+		n := 2 + g.r.Intn(3)
+		for j := 0; j < n; j++ {
+			switch g.r.Intn(6) {
+			case 0:
+				subs = append(subs, fmt.Sprintf("QD %d %d %s 0 0 0 %s 0", c, h, g.pick(qnames), g.b(1, 3)))
+			case 1:
+				subs = append(subs, fmt.Sprintf("QOS %d %d %d 0 0", c, h, g.r.Intn(4)))
+			case 2:
+				subs = append(subs, fmt.Sprintf("GET %d %d %s 1", c, h, g.existingQueue(sn)))
+			case 3:
+				g.uid++
+				subs = append(subs, fmt.Sprintf("PUB %d %d - %s 0 0 0 %d %d", c, h, g.existingQueue(sn), g.uid, 1+g.r.Intn(9)))
+			case 4:
+				subs = append(subs, fmt.Sprintf("QP %d %d %s %s", c, h, g.existingQueue(sn), g.b(1, 4)))
+			default:
+				subs = append(subs, fmt.Sprintf("XD %d %d %s direct 0 0 0 %s 0", c, h, g.pick(xnames), g.b(1, 2)))
+			}
+		}
+		g.do("MULTI " + strings.Join(subs, " | "))
+		return
+	}
 	switch {
 	case k < 90: // queue.declare
 		name := g.pick(qnames)
